@@ -22,6 +22,7 @@ impl Family for C03Family {
             real: &["passkey-client::Client::{register,authenticate}", "Authenticator::{make_credential,get_assertion}", "AuthenticatorData encoding", "lock wrappers over tokio::sync"],
             stubs: &["executor", "SimStore seam + reference store", "SimUser", "seeded RNG behind the hook", "relying-party verifier and account database"],
             crash_isolated: false,
+            fresh_thread: true,
         }
     }
 
